@@ -109,7 +109,7 @@ Ops ==
   \cup {[k |-> "sslice", lo |-> r[1], hi |-> r[2]] : r \in {<<1, -1>>, <<0, 2>>, <<1, 3>>}}
   \* tuples, scalars, calls
   \cup {[k |-> "tuple"], [k |-> "tupleidx"], [k |-> "untuple"], [k |-> "ternary"], [k |-> "max"], [k |-> "min"], [k |-> "abs"], [k |-> "addn"], [k |-> "closure"], [k |-> "closurecall"], [k |-> "lambdacall"], [k |-> "closurenest"], [k |-> "lambdalocal"], [k |-> "defarg"],
-        [k |-> "castint"], [k |-> "caststr"], [k |-> "tryraise"], [k |-> "breakcont"], [k |-> "range3"], [k |-> "srfind2"], [k |-> "sfind2"], [k |-> "dgetplus"], [k |-> "dgetneg"], [k |-> "dpopdefault"], [k |-> "enumcontinue"], [k |-> "kwreorder"], [k |-> "kwskip"], [k |-> "swap"], [k |-> "dblcomp"], [k |-> "dblcompcond"], [k |-> "closureloop"], [k |-> "chaincmp"], [k |-> "andor"], [k |-> "range1"], [k |-> "range2"], [k |-> "range2len"], [k |-> "range3ab"], [k |-> "rangecomp1"], [k |-> "rangecomp2"]}
+        [k |-> "castint"], [k |-> "caststr"], [k |-> "castsamemul"], [k |-> "castsamesub"], [k |-> "castsamenot"], [k |-> "tryraise"], [k |-> "breakcont"], [k |-> "range3"], [k |-> "srfind2"], [k |-> "sfind2"], [k |-> "dgetplus"], [k |-> "dgetneg"], [k |-> "dpopdefault"], [k |-> "enumcontinue"], [k |-> "kwreorder"], [k |-> "kwskip"], [k |-> "swap"], [k |-> "dblcomp"], [k |-> "dblcompcond"], [k |-> "closureloop"], [k |-> "chaincmp"], [k |-> "andor"], [k |-> "range1"], [k |-> "range2"], [k |-> "range2len"], [k |-> "range3ab"], [k |-> "rangecomp1"], [k |-> "rangecomp2"]}
   \cup {[k |-> "flchain", i |-> i] : i \in DOMAIN FlText}
 
 Undef == [undef |-> TRUE]
@@ -195,6 +195,10 @@ Apply(op, st) ==
     [] k = "lambdacall" -> [st EXCEPT !.n = st.a + 2 * st.b]                                  \* def co(cf, cx): return ap(lambda cv: cf(cf(cv)), cx) ; n = co(lambda w: w + b, a)
     [] k = "closure" -> [st EXCEPT !.n = st.b + st.a]                                         \* def h(x): return x + a ; n = h(b)
     [] k = "defarg" -> [st EXCEPT !.n = (st.b + 5) + (st.b + 1)]                              \* def h(x, y = 5): return x + y ; n = h(b) + h(b, y=1)
+    \* a conversion to the type the argument already has still groups like a call: its argument is one operand
+    [] k = "castsamemul" -> [st EXCEPT !.n = (st.a + st.b) * 3]                               \* n = int(a + b) * 3
+    [] k = "castsamesub" -> [st EXCEPT !.n = st.b - (st.a - st.b)]                            \* n = b - int(a - b)
+    [] k = "castsamenot" -> [st EXCEPT !.bb = ~(st.a > st.b \/ st.bb)]                        \* bb = not bool(a > b or bb)
     [] k = "castint" -> [st EXCEPT !.n = 12 + st.a]                                           \* n = int('12') + a
     [] k = "caststr" -> [st EXCEPT !.s = IntChars(st.a) \o IntChars(st.n)]                    \* s = str(a) + str(n)
     [] k = "tryraise" -> [st EXCEPT !.n = IF st.a > 0 THEN 5 ELSE st.n]                       \* try: if a > 0: raise ... except: n = 5
@@ -302,6 +306,9 @@ Text(op) ==
     [] k = "lambdacall" -> Line("n = co(lambda lw: lw + b, a)")
     [] k = "closure" -> Line("def h(hx: int) -> int:") \o Line("\treturn hx + a") \o Line("n = h(b)")
     [] k = "defarg" -> Line("def g(gx: int, gy: int = 5) -> int:") \o Line("\treturn gx + gy") \o Line("n = g(b) + g(b, gy=1)")
+    [] k = "castsamemul" -> Line("n = int(a + b) * 3")
+    [] k = "castsamesub" -> Line("n = b - int(a - b)")
+    [] k = "castsamenot" -> Line("bb = not bool(a > b or bb)")
     [] k = "castint" -> Line("n = int('12') + a")
     [] k = "caststr" -> Line("s = str(a) + str(n)")
     [] k = "tryraise" -> Line("try:") \o Line("\tif a > 0:") \o Line("\t\traise RuntimeError('m')") \o Line("except RuntimeError as ex:") \o Line("\tn = 5")
